@@ -16,7 +16,7 @@ m = {
                  'kind_free_text': 'finite-domain enumeration (complete) and bounded stand-in runs on the real code under /venv/bin/python'}],
     'checks': [],
     'not_applicable': [],
-    'notes': 'exit codes: 0 held, 1 VIOLATION, 2 undecided (never a violation), 3 checker crash. See DESIGN.md.',
+    'notes': 'exit codes: 0 held on everything explored (UNDECIDED lines, if any, are printed and shown in the evidence as discharged < obligations; never a violation), 1 VIOLATION (replayed input, or a named obligation with no-failing-input-found), 3 checker crash (never a verdict). See DESIGN.md section 4.',
 }
 for p in props:
     pid = p['id']
